@@ -1,7 +1,7 @@
 (* Props/C11_rtubin.v — C11, RTU / binary half: resynchronisation.  ONLY statements. *)
 From PM.theories Require Import Base Expr Struct FrBCode Crc FrBCommon FrRtu FrBin FrSpecB.
 From PM.Generated Require Import GenFramerB.
-From PM.proofs Require Import Crc_proofs FrB_witness_proofs FrB_rtu_proofs.
+From PM.proofs Require Import Crc_proofs FrB_witness_proofs FrB_rtu_proofs FrB_bin_proofs.
 Open Scope list_scope.
 Open Scope N_scope.
 
@@ -23,6 +23,16 @@ Theorem C11_rtu_bad_crc_resyncs : forall cfg st st2, rtu_check cfg st = (st2, Ok
   (r_buf st2 = [] /\ r_hdr st2 = hdr_empty) \/ r_buf st2 = r_buf st.
 Proof. exact rtu_check_false_resets. Qed.
 Print Assumptions C11_rtu_bad_crc_resyncs.
+
+(* binary, partial: from any state with an empty buffer, delimiter-free valid frames, one per
+   read, are each delivered by their own read (any number of them) *)
+Theorem C11_binary_after_sync : forall cfg (frames : list (N * bytes)) st,
+  b_buf st = [] ->
+  Forall (fun f => valid_bframe cfg (fst f) (snd f)) frames ->
+  bin_feed_dels cfg st (map (fun f => spec_adu_binary (fst f) (snd f)) frames) =
+    (map (fun f => (snd f, Z.of_N (fst f))) frames, map (fun _ => FOk) frames).
+Proof. exact bin_one_per_read. Qed.
+Print Assumptions C11_binary_after_sync.
 
 (* binary, bare framer: refuted — "{}" makes struct.error escape for ever
    (finding F-C11-binary-short-brace-deaf) *)
